@@ -8,7 +8,7 @@ git -C /repo revert --no-commit "$SHA" >/dev/null || exit 2
 cd /verif
 cargo build --release --offline -q -p verif 2>/dev/null
 find /verif/replays -name '*.json' -delete
-VERIF_ONLY_SEED=$SEED /verif/target/release/verif "$PROP" 2>&1 | grep -E "VIOLATION|signature" | cut -c1-300
+VERIF_EVIDENCE_DIR=/var/tmp/repro-evidence VERIF_ONLY_SEED=$SEED /verif/target/release/verif "$PROP" 2>&1 | grep -E "VIOLATION|signature" | cut -c1-300
 for f in /verif/replays/*.json; do [ -f "$f" ] && cp "$f" "/verif/findings/$NAME-$(basename "$f")"; done
 find /verif/replays -name '*.json' -delete
 git -C /repo revert --abort 2>/dev/null
